@@ -434,6 +434,9 @@ class ASTRewriter(ast.NodeTransformer):
             ]
             rolls.extend(flatten([self.visit(copy.deepcopy(b)) for b in new_body]))
 
+        # there is no break: the else suite always runs after the last iteration
+        rolls.extend(flatten([self.visit(copy.deepcopy(b)) for b in node.orelse]))
+
         return rolls
 
     def __call_range(self, node):
